@@ -24,6 +24,10 @@ Started(s) == s \in {"WORKING", "FINISHED"}
 Working(opts, s) == ~IsAbsenceStep(opts, s.time)
 Count(seq, x) == Cardinality({ i \in DOMAIN seq : seq[i] = x })
 IsPrefixOf(a, b) == Len(a) <= Len(b) /\ \A i \in DOMAIN a: a[i] = b[i]
+\* row k of the logs of a simulate run belongs to time (k - 1) * unit_time; absence lists hold times
+RowAbs(opts, lg, k) == Mem(lg.absL, (k - 1) * Unit(opts))
+RowAbsW(cfg, opts, w, k) == Mem(cfg.workers[w].abs, (k - 1) * Unit(opts))
+RowAbsF(cfg, opts, f, k) == Mem(cfg.facs[f].abs, (k - 1) * Unit(opts))
 AbsentW(cfg, opts, s, w) == IsAbsenceStep(opts, s.time) \/ Mem(cfg.workers[w].abs, s.time)
 AbsentF(cfg, opts, s, f) == IsAbsenceStep(opts, s.time) \/ Mem(cfg.facs[f].abs, s.time)
 \* phases of a step at which resource states are settled for the step
@@ -48,7 +52,7 @@ C01_A(cfg, opts, ph, s0, s1, b) ==
 \* to step k, which is an absence step iff k \in absL
 C01_L(cfg, opts, lg) ==
   LET n == Len(lg.pcost)
-      abs(k) == Mem(lg.absL, k - 1)
+      abs(k) == RowAbs(opts, lg, k)
   IN << <<"C01.L.fs", \A t \in NonExempt(cfg): \A k \in 1..Len(lg.ts[t]):
                          lg.ts[t][k] # "NONE" => \A p \in Preds(cfg, t, "FS"): lg.ts[p][k] = "FINISHED">>,
         <<"C01.L.ff", \A t \in NonExempt(cfg): \A k \in 1..Len(lg.ts[t]):
@@ -110,14 +114,14 @@ C02_L(cfg, opts, lg) ==
           \* (shown READY at an absence step) or when it is reported FINISHED
           lg.rem[t][k + 1] # lg.rem[t][k] =>
              \/ lg.ts[t][k + 1] = "WORKING"
-             \/ (lg.ts[t][k + 1] = "READY" /\ Mem(lg.absL, k))
+             \/ (lg.ts[t][k + 1] = "READY" /\ RowAbs(opts, lg, k + 1))
              \/ lg.ts[t][k + 1] = "FINISHED">>,
      \* finished at the very next step after reaching zero, dependencies permitting: judged on the
      \* logs (FF predecessors FINISHED at that next step; SF predecessors started one step earlier,
      \* because a start within the next step comes after its finish check)
      <<"C02.L.prompt", \A t \in NonExempt(cfg): \A k \in 1..(Len(lg.ts[t]) - 1):
           /\ lg.rem[t][k] <= 0
-          /\ (lg.ts[t][k] = "WORKING" \/ (lg.ts[t][k] = "READY" /\ Mem(lg.absL, k - 1) /\ k > 1 /\ lg.ts[t][k - 1] = "WORKING"))
+          /\ (lg.ts[t][k] = "WORKING" \/ (lg.ts[t][k] = "READY" /\ RowAbs(opts, lg, k) /\ k > 1 /\ lg.ts[t][k - 1] = "WORKING"))
           /\ (\A p \in Preds(cfg, t, "FF"): lg.ts[p][k + 1] = "FINISHED")
           /\ (\A p \in Preds(cfg, t, "SF"): \E j \in 1..k: Started(lg.ts[p][j]))
           => lg.ts[t][k + 1] = "FINISHED">>,
@@ -166,7 +170,7 @@ C03_L(cfg, opts, lg) ==
           Len(lg.aw[t][k]) > 0 /\ lg.aw[t][k] # <<-1>> => lg.ts[t][k] \in {"READY", "WORKING"}>>,
      <<"C03.L.worker-state", \A w \in Workers(cfg): \A k \in 1..Len(lg.ws[w]):
           (lg.ws[w][k] = "WORKING") <=>
-             (Len(lg.wt[w][k]) > 0 /\ ~Mem(lg.absL, k - 1) /\ ~Mem(cfg.workers[w].abs, k - 1))>> >>
+             (Len(lg.wt[w][k]) > 0 /\ ~RowAbs(opts, lg, k) /\ ~RowAbsW(cfg, opts, w, k))>> >>
 
 \* =========================== C04 ===========================================
 \* judged at the "allocated" event against the state b at the step's "presence" event
@@ -223,7 +227,7 @@ C04_L(cfg, opts, lg) ==
           lg.aw[t][k] # <<-1>> =>
           \A w \in ToSet(lg.aw[t][k]):
              (k = 1 \/ lg.aw[t][k - 1] = <<-1>> \/ ~Mem(lg.aw[t][k - 1], w)) =>
-                ~Mem(lg.absL, k - 1) /\ ~Mem(cfg.workers[w].abs, k - 1)>> >>
+                ~RowAbs(opts, lg, k) /\ ~RowAbsW(cfg, opts, w, k)>> >>
 
 \* =========================== C05 ===========================================
 \* static feasibility (validated against the specification itself by the model checker)
@@ -322,7 +326,7 @@ C07_L(cfg, opts, lg) ==
         <<"C07.L.facility", \A f \in Facs(cfg): Len(lg.fcost[f]) = Len(lg.fs[f]) /\
               \A k \in 1..Len(lg.fcost[f]):
                  lg.fcost[f][k] = IF lg.fs[f][k] = "WORKING" THEN cfg.facs[f].cost ELSE 0>>,
-        <<"C07.L.absence", \A k \in 1..n: Mem(lg.absL, k - 1) =>
+        <<"C07.L.absence", \A k \in 1..n: RowAbs(opts, lg, k) =>
               /\ lg.pcost[k] = 0
               /\ \A w \in Workers(cfg): k <= Len(lg.wcost[w]) => lg.wcost[w][k] = 0
               /\ \A f \in Facs(cfg): k <= Len(lg.fcost[f]) => lg.fcost[f][k] = 0>>,
@@ -394,7 +398,7 @@ C10_S(cfg, opts, ph, s) ==
      <<"C10.S.auto-runs", Settled(ph) /\ ~Working(opts, s) /\ opts.autoAbs =>
           \A t \in Tasks(cfg): cfg.tasks[t].auto /\ cfg.tasks[t].comp = 0 => s.ts[t] # "READY">> >>
 C10_L(cfg, opts, lg) ==
-  << <<"C10.L.absence-rows", \A k \in 1..Len(lg.pcost): Mem(lg.absL, k - 1) =>
+  << <<"C10.L.absence-rows", \A k \in 1..Len(lg.pcost): RowAbs(opts, lg, k) =>
           /\ lg.pcost[k] = 0 /\ lg.ocost[k] = 0
           /\ \A w \in Workers(cfg): lg.ws[w][k] = "ABSENCE" /\ lg.wcost[w][k] = 0
           /\ \A f \in Facs(cfg): lg.fs[f][k] = "ABSENCE" /\ lg.fcost[f][k] = 0
@@ -402,9 +406,9 @@ C10_L(cfg, opts, lg) ==
           /\ \A t \in Tasks(cfg): k > 1 =>
                 (lg.aw[t][k] = lg.aw[t][k - 1] \/ lg.ts[t][k] = "FINISHED") >>,
      <<"C10.L.own-absence", \A w \in Workers(cfg): \A k \in 1..Len(lg.ws[w]):
-          Mem(cfg.workers[w].abs, k - 1) => lg.ws[w][k] = "ABSENCE" /\ lg.wcost[w][k] = 0>>,
+          RowAbsW(cfg, opts, w, k) => lg.ws[w][k] = "ABSENCE" /\ lg.wcost[w][k] = 0>>,
      <<"C10.L.own-absence-f", \A f \in Facs(cfg): \A k \in 1..Len(lg.fs[f]):
-          Mem(cfg.facs[f].abs, k - 1) => lg.fs[f][k] = "ABSENCE" /\ lg.fcost[f][k] = 0>> >>
+          RowAbsF(cfg, opts, f, k) => lg.fs[f][k] = "ABSENCE" /\ lg.fcost[f][k] = 0>> >>
 
 \* =========================== C13 ===========================================
 C13_TopPlaced(cfg, s, p) ==
@@ -631,14 +635,14 @@ C20_Config(run) ==
 \* the parent run: lg = final logs, t = the sub-project task, n = ceil(D * su / pu)
 C20_Parent(cfg, opts, lg, t, n) ==
   LET W == { k \in 1..Len(lg.ts[t]) : lg.ts[t][k] = "WORKING" }
-      shownReadyInAbsence == { k \in 1..Len(lg.ts[t]) : lg.ts[t][k] = "READY" /\ Mem(lg.absL, k - 1) }
+      shownReadyInAbsence == { k \in 1..Len(lg.ts[t]) : lg.ts[t][k] = "READY" /\ RowAbs(opts, lg, k) }
   IN << <<"C20.L.length", lg.status = "SUCCESS" => Cardinality(W) = n>>,
         <<"C20.L.consecutive", W # {} =>
              \A k \in Min(W)..Max(W): k \in W \/ k \in shownReadyInAbsence>>,
         <<"C20.L.no-workers", \A k \in 1..Len(lg.aw[t]): lg.aw[t][k] = <<>> >>,
         \* starts as soon as its dependencies allow: never shown READY at a working step
         <<"C20.L.prompt", cfg.tasks[t].comp = 0 =>
-             \A k \in 1..Len(lg.ts[t]): lg.ts[t][k] = "READY" => Mem(lg.absL, k - 1)>> >>
+             \A k \in 1..Len(lg.ts[t]): lg.ts[t][k] = "READY" => RowAbs(opts, lg, k)>> >>
 
 \* =========================== C12 ===========================================
 C12_S(cfg, opts, ph, s) ==
